@@ -71,6 +71,7 @@ class ScenarioSpec:
         self.p_detach = 0.0
         self.strip_contracts = False
         self.guard_init = 'random'
+        self.p_mirror = 0.0         # probability that a queued external event copies name and parameters of a pending internal one
         self.__dict__.update(kw)
 
 
@@ -146,6 +147,10 @@ def run_scenario(rng, chart, spec, cases, stats, chart_key):
     sc.interp._evaluator._context['g'] = g0
     n = rng.randint(*spec.n_ops)
     used = sorted({t.event for t in chart._transitions if t.event})
+    import re
+    code = [t.action or '' for t in chart._transitions] + [getattr(st, a, None) or '' for st in chart._states.values()
+                                                           for a in ('on_entry', 'on_exit')]
+    templates = sorted({(m.group(1), int(m.group(2))) for c in code for m in re.finditer(r"send\('(\w+)', delay=(\d+)\)", c)})
     dead = False
     for k in range(n):
         r = rng.random()
@@ -165,7 +170,18 @@ def run_scenario(rng, chart, spec, cases, stats, chart_key):
             sc.detach(rng.randrange(len(sc.listeners)))
             continue
         if r < spec.p_clock + spec.p_bits + spec.p_queue:
-            op = ('queue', make_event(rng, used))
+            ev = make_event(rng, used)
+            if spec.p_mirror and rng.random() < spec.p_mirror:
+                # an external event equal (==: same name and parameters) to an internal one the chart sends itself
+                from sismic.model import Event
+                iq = sc.interp._internal_queue
+                if iq and rng.random() < 0.4:
+                    _, ie = rng.choice(iq)
+                    ev = Event(ie.name, **dict(ie.data))
+                elif templates:
+                    nm, d = rng.choice(templates)
+                    ev = Event(nm, delay=d)
+            op = ('queue', ev)
         else:
             op = ('exec',)
         case = sc.step_case(op)
@@ -219,6 +235,11 @@ def emit_and_check(prop, charts, cases, shard=60):
             f.write('Definition cases : list icase := [\n')
             f.write(';\n'.join(tocoq.c_icase(c, local[c['chart_key']], pnames) for c in chunk))
             f.write('\n].\nEval vm_compute in (check_icases cases).\n')
+            # the decidable forms of the theorems' hypotheses, evaluated on the very charts that were run
+            f.write('From SismicProofs Require C02Proofs C03Proofs.\n')
+            f.write('Definition charts : list chart := [%s].\n' % '; '.join(local.values()))
+            f.write('Eval vm_compute in [N.of_nat (length (filter C02Proofs.wf_chart_b charts)); '
+                    'N.of_nat (length (filter C03Proofs.tree_okb charts)); N.of_nat (length charts)].\n')
         files.append(fn)
     res = coq_eval_files(prop, files)
     masks = {}
@@ -229,7 +250,16 @@ def emit_and_check(prop, charts, cases, shard=60):
             continue
         for i, m in parse_pairs(out):
             masks[k * shard + i] = m
+        import re
+        h = re.search(r'\[(\d+)%N;\s*(\d+)%N;\s*(\d+)%N\]', out)
+        if h:
+            HYP['wf_chart_b'] += int(h.group(1))
+            HYP['tree_okb'] += int(h.group(2))
+            HYP['charts_evaluated'] += int(h.group(3))
     return masks, fails
+
+
+HYP = dict(wf_chart_b=0, tree_okb=0, charts_evaluated=0)
 
 
 def describe_case(case, charts):
